@@ -103,6 +103,7 @@ type harness struct {
 	quietViolations  []string
 	ideal            bool // no outcome faults, errors or mid-cycle edits so far
 	haltWatch        bool
+	settling         bool // settle phase: the simulated user is idle
 	haltWatchSide    string
 	propagatedAfter  bool
 	lastErrors       []string
@@ -388,6 +389,7 @@ func (e *modelEndpoint) Transition(ctx context.Context, transitions []*core.Chan
 		}
 		results = append(results, result)
 		h.s.Count("probe.transitions_applied", 1)
+		h.s.Count("probe.changes_applied_"+e.side, 1)
 	}
 	h.pending[e.side] = nil
 	for i, t := range transitions {
@@ -745,6 +747,10 @@ func (h *harness) userOp(op simkit.Op) {
 		t = ensureParents(t, path)
 		exec := op.Int(1) == 1 && h.preserve[side]
 		t, _ = setAt(t, path, fileEntry(op.Int(0), exec))
+	case "edit":
+		if cur := lookup(t, path); cur != nil && cur.Kind == core.EntryKind_File {
+			cur.Digest = digestOf(op.Int(0))
+		}
 	case "mkdir":
 		t = ensureParents(t, path)
 		if cur := lookup(t, path); cur == nil || cur.Kind != core.EntryKind_Directory {
